@@ -151,7 +151,7 @@ def run(tier):
     stress = {"threads": 4, "sections": 1500} if tier == "quick" else {"threads": 8, "sections": 10000}
     rel = [(t, sp) for t, sp in specs if t in ("dfs2", "dfs3", "cov4", "hold3")]
     return LC.run(tier, tours, configs, configs_if_differs, specs, stress=stress, release_specs=rel,
-                  probe_scenarios=["m_before", "m_after"])
+                  probe_scenarios=["m_before", "m_after", "m_after@fifo"])
 
 
 def replay(path):
